@@ -1,3 +1,4 @@
+import copy
 import numpy as np
 import pandas as pd
 from ..entities.paramStruct import ParamStruct
@@ -106,15 +107,17 @@ def read_model_parameters(
     sim_end_date = clock_struct.simulation_end_date
 
     if crop.harvest_date is None:
-        crop = compute_crop_calendar(
-            crop,
+        # only the crop's length in calendar days is needed here: it is computed on a copy, the crop's own
+        # calendar is computed (and converted to thermal time, if asked for) once, in compute_variables
+        crop_cal = compute_crop_calendar(
+            copy.deepcopy(crop),
             clock_struct.planting_dates,
             clock_struct.simulation_start_date,
             clock_struct.simulation_end_date,
             clock_struct.time_span,
             weather_df,
         )
-        mature = int(crop.MaturityCD + 30)
+        mature = int(crop_cal.MaturityCD + 30)
         plant = pd.to_datetime("1990/" + crop.planting_date)
         harv = plant + np.timedelta64(mature, "D")
         new_harvest_date = str(harv.month) + "/" + str(harv.day)
